@@ -9,12 +9,16 @@
    run by execution instead: analyzer verdict vs forced runs along both
    branches, straight-line lines executed fresh, on the implementation, with
    the model tied to both tools by the analyzer and run correspondences.
-   What IS proved, for all inputs: the facts both directions rest on. *)
+   What IS proved, for all inputs: the facts both directions rest on, and
+   SOUNDNESS FOR EXPRESSIONS (C06_expression_check_sound, Proofs/CheckSound.v):
+   a heterogeneous lock-step argument between the two token walkers, for every
+   token stream and cursor position — no syntax tree, no well-formedness
+   assumption. *)
 From Coq Require Import List NArith ZArith Bool.
 From Coq Require String.
 From Abasic Require Import Model.Bytes Model.Num Model.Token Model.Data Model.Lexer Gen.Tables
      Model.State Model.Eval Model.Interp Model.Analyzer Proofs.Monad Proofs.Frames Proofs.StoreProofs
-     Proofs.Safety Proofs.AnalyzerFrame Proofs.AnalyzerProofs Proofs.AgreeProofs.
+     Proofs.Safety Proofs.AnalyzerFrame Proofs.AnalyzerProofs Proofs.AgreeProofs Proofs.Caps Proofs.CheckSound.
 Import ListNotations.
 Local Open Scope nat_scope.
 
@@ -80,6 +84,42 @@ Example C06_example :
   /\ errors_of "10 GOTO 20" = 1.
 Proof. vm_compute. repeat split. Qed.
 
+(* Soundness of the checker on expressions.  Take ANY stored program and
+   immediate line, ANY cursor position, ANY nesting level and fuels, an
+   interpreter state [s] that satisfies the name-suffix typing invariant of C16
+   ([caps_inv]: every reachable state does) and an analyzer state [sa] looking
+   at the same tokens through the same cursor, neither holding user-defined
+   functions ([R s sa]).  If the expression analyzer accepts what stands at
+   the cursor and says it has type t, then the evaluator, on the same tokens,
+   - returns a value of type t, leaves its cursor where the analyzer left its
+     own, and keeps the invariant; or
+   - fails with an error that is NEITHER a syntax error NOR a type mismatch
+     (division by zero, bad subscript, illegal quantity, out of memory ...).
+   (The remaining answers are the model's own: out of fuel, oracle miss for ^,
+   and the panic tags, which C01 shows unreachable.) *)
+Theorem C06_expression_check_sound : forall f1 f2 n s sa acc t sa' acc',
+  R s sa -> analyze_expression f2 n (sa, acc) = (Ok t, (sa', acc')) ->
+  match evaluate_expression f1 n s with
+  | (Ok v, s') => kind v = t /\ loc s' = loc sa' /\ caps_inv s'
+  | (Err e _, _) => benign e
+  | _ => True
+  end.
+Proof. exact checked_expression_does_not_fail_on_types. Qed.
+
+(* non-vacuity: a fresh interpreter and a fresh analyzer state looking at the
+   immediate line  (A + 1) * 2 < N(3) OR B$ = "x" : related, accepted as a number *)
+Example C06_sound_example :
+  let toks := [TLeftParen; TSymbol (bs "A"); TPlus; TNumber (f64_of_Z 1); TRightParen; TMultiply; TNumber (f64_of_Z 2);
+               TLessThan; TSymbol (bs "N"); TLeftParen; TNumber (f64_of_Z 3); TRightParen; TOr;
+               TSymbol (bs "B$"); TEquals; TString (bs "x")] in
+  let s := set_immediate toks init_interp in
+  R s s /\ exists sa' acc', analyze_expression 40 0 (s, []) = (Ok TyNumber, (sa', acc')).
+Proof.
+  cbn zeta. split.
+  - split; [repeat split|]. split; [apply (caps_inv_ext init_interp); try reflexivity; apply caps_init|]. split; reflexivity.
+  - eexists _, _. vm_compute. reflexivity.
+Qed.
+
 Print Assumptions C06_same_expression_grammar.
 Print Assumptions C06_same_statement_keywords.
 Print Assumptions C06_jump_targets.
@@ -87,3 +127,4 @@ Print Assumptions C06_analysis_keeps_store.
 Print Assumptions C06_checker_assignment.
 Print Assumptions C06_interpreter_assignment.
 Print Assumptions C06_comparisons_are_numbers.
+Print Assumptions C06_expression_check_sound.
